@@ -107,10 +107,8 @@ Section WithQ.
           exists (evs2 ++ evs). split; [rewrite G3, H3, app_assoc; reflexivity|apply Forall_app; split; assumption].
         * cbn [fst snd]. split; [exact I|split; [exact H2|exists evs; split; assumption]].
   Qed.
-  Lemma Mok_retry : forall A r (att : M A), r < usize_max -> Mok att -> Mok (retry_on_timeout r att).
-  Proof.
-    intros A r att Hr Ha. unfold retry_on_timeout. destruct (usize_max <=? r) eqn:E; [lia|]. apply Mok_retry_loop. exact Ha.
-  Qed.
+  Lemma Mok_retry : forall A r (att : M A), Mok att -> Mok (retry_on_timeout r att).
+  Proof. intros A r att Ha. unfold retry_on_timeout. apply Mok_retry_loop. exact Ha. Qed.
   Lemma Mok_gather : forall A t (m : M A), Mok m -> Mok (maybe_gather t m).
   Proof.
     intros A t m Hm n. destruct t; cbn [maybe_gather].
@@ -126,7 +124,8 @@ Section WithQ.
   Definition settings_ok (t : option tsettings) : Prop :=
     let '(r, w) := ts_rw_or_default t in
     (forall d, r = Some d -> dur_zero d = false) /\ (forall d, w = Some d -> dur_zero d = false).
-  Definition retries_ok (t : option tsettings) : Prop := ts_retries_or_default t < usize_max.
+  (* kept for the statements that predate the retry fix: every retry count is fine *)
+  Definition retries_ok (t : option tsettings) : Prop := True.
 
   Lemma Mok_apply_timeout : forall t, settings_ok t -> (forall r w, Q (ApplyTimeout r w)) -> Mok (apply_timeout t).
   Proof.
